@@ -643,6 +643,7 @@ primaryexpr(struct scope *s)
 	struct type *t;
 	char *src, *end;
 	uint_least32_t chr;
+	bool hexoct;
 	int base;
 
 	switch (tok.kind) {
@@ -671,12 +672,20 @@ primaryexpr(struct scope *s)
 		case 'L': ++src; t = targ->typewchar; break;
 		case 'u': ++src; t = *src == '8' ? ++src, &typeuchar : &typeushort; break;
 		case 'U': ++src; t = &typeuint; break;
-		default: t = &typeint;
+		default: t = NULL;
 		}
 		assert(*src == '\'');
 		++src;
-		src += decodechar(src, &chr, NULL, "character constant", &tok.loc);
-		e = mkconstexpr(t, chr);
+		hexoct = false;
+		src += decodechar(src, &chr, &hexoct, "character constant", &tok.loc);
+		if (hexoct && chr > (!t || t->size == 1 ? 0xff : t->size == 2 ? 0xffff : 0xffffffff))
+			error(&tok.loc, "escape sequence in character constant is out of range");
+		e = mkconstexpr(t ? t : &typeint, chr);
+		/* an unprefixed constant has the value of a char object converted to int (C11 6.4.4.4p10) */
+		if (!t && chr <= 0xff && chr & 0x80 && targ->signedchar)
+			e->u.constant.u = chr | ~0xffull;
+		else if (t && t->u.basic.issigned && chr & 0x80000000)
+			e->u.constant.u = chr | ~0xffffffffull;
 		if (*src != '\'')
 			error(&tok.loc, "character constant contains more than one character: %c", *src);
 		next();
